@@ -240,8 +240,15 @@ func splitModel(ec *evalCtx, s, sep *Term) Value {
 }
 
 func joinModel(ec *evalCtx, parts *SliceV, sep *Term) Value {
-	// join is left uninterpreted except for the 0/1 element cases
-	panic(unsupported("strings.Join model needs a named slice"))
+	// join is left uninterpreted (an opaque string per call) except for the 0/1 element cases
+	{
+		r := Var(ec.e().fresher.name("strings.Join"), SStr)
+		ec.st.Assume(Implies(Eq(parts.Len, Int(0)), Eq(r, Str(""))))
+		if first, ok := parts.At(Int(0)).(*Term); ok && first.Sort == SStr {
+			ec.st.Assume(Implies(Eq(parts.Len, Int(1)), Eq(r, first)))
+		}
+		return r
+	}
 }
 
 func modelIndexRune(ec *evalCtx, a []Value) Value {
